@@ -855,7 +855,8 @@ func c03Gzip(b []byte) []byte {
 func TestVerif_C03_gzipcut(t *testing.T) {
 	s := verifh.New(t, "C03", "gzipcut",
 		"gzip-compressed bodies under Content-Length, chunked and close-delimited framing, served cut at k (every k in thorough, stratified in quick) then EOF, to a client with transparent gzip decoding; "+
-			"oracle: success implies the complete plaintext; class gzip-close-empty = close-delimited gzip response cut exactly after the header block (no gzip byte delivered)")
+			"MODEL-judged (lane c03gz): the framing layer is the Lean HTTP/1.1 model, the decompressor the reference library's verdict on the one complete stream (its length, its plaintext); "+
+			"second opinion (Go oracle): success implies the complete plaintext; class gzip-close-empty = close-delimited gzip response cut exactly after the header block (no gzip byte delivered)")
 	r := s.Rand()
 	nMsgs := verifh.N(12, 60)
 	reached := map[string]int{}
@@ -939,7 +940,8 @@ func TestVerif_C03_gzipcut(t *testing.T) {
 					ok = true
 				}
 			}
-			s.Observe(fmt.Sprintf("gzipcut/%d/%d/%x", i, k, st), ok, class, k > he && k < len(st), human, why)
+			line := "c03gz " + verifh.Hex(st) + " " + strconv.Itoa(k) + " " + strconv.Itoa(len(z)) + " " + verifh.Hex(plain)
+			s.Case(line, first, ok, class, k > he && k < len(st), human)
 		}
 	}
 	s.Finish()
